@@ -163,6 +163,17 @@ func main() {
 				keep(c, runCase(c))
 			}
 		}
+		if has("loose") {
+			for i := 0; i < *n; i++ {
+				c := g.LooseEntryCase()
+				runCase(c)
+				emit(codec.RunAgain(c))
+				c2 := *c
+				c2.ID = c.ID + "/late"
+				c2.Late = true
+				runCase(&c2)
+			}
+		}
 		if has("empty") {
 			for i := 0; i < 1+*n/4; i++ {
 				runCase(g.EmptyValueCase())
